@@ -544,7 +544,7 @@ package engine
 //@   oncall tool.BinarySearch
 //@     after A0 := arr(arg0)
 //@   ensures [C07] freshcontainer: fresh(rb.Kc)
-//@   ensures [C08,C04,C16,C05,C14,C12,C13] merged: wfKc(rb.Kc)
+//@   ensures [C08,C04,C16,C05,C14,C12,C13,C07] merged: wfKc(rb.Kc)
 //@   ensures [C08] view: (forall k: string :: (k in rb.Kc.RuleEntities) <==> ((k in OLD.RuleEntities) || (k in kc.RuleEntities))) && (forall k: string :: (k in kc.RuleEntities) ==> rb.Kc.RuleEntities[k] == kc.RuleEntities[k]) && (forall k: string :: (k in OLD.RuleEntities) && !(k in kc.RuleEntities) ==> rb.Kc.RuleEntities[k] == OLD.RuleEntities[k])
 //@   modifies rb.Kc
 //@   panicsafe
